@@ -16,7 +16,7 @@ namespace DD
 
 /-! ### `copyBddK` on a level map with natural-number values is `copyBddF` -/
 
-theorem lookup_map_lvl (lm : List (Nat × Nat)) (k : Nat) :
+theorem lookup_map_keyLvl (lm : List (Nat × Nat)) (k : Nat) :
     (lm.map fun p => (p.1, Key.lvl (p.2 : Int))).lookup k =
       (lm.lookup k).map fun j => Key.lvl (j : Int) := by
   induction lm with
@@ -35,7 +35,7 @@ theorem copyBddK_eq_F (lm : List (Nat × Nat)) :
   | succ fu ih =>
     intro u cache m
     unfold copyBddK copyBddF
-    simp only [Option.getD_none, ih, lookup_map_lvl]
+    simp only [Option.getD_none, ih, lookup_map_keyLvl]
     split
     · rfl
     split
